@@ -343,6 +343,8 @@ def main(out_path: str):
     # C05: header columns of the survey sheet and the smart-quote table of clean_text_values
     parts.append(list_s("selectQuestionFields", question.MultipleChoiceQuestion.get_slot_names(), "question.MultipleChoiceQuestion.get_slot_names() (header_columns of the survey sheet)"))
     parts.append(dict_ss("smartQuotes", x2j.SMART_QUOTES, "xls2json.SMART_QUOTES"))
+    # C09: itemset value/label refs (constants.EXTERNAL_CHOICES_ITEMSET_REF_*), last-saved instance name
+    parts.append(dict_ss("itemsetRefs", {"value": constants.EXTERNAL_CHOICES_ITEMSET_REF_VALUE, "label": constants.EXTERNAL_CHOICES_ITEMSET_REF_LABEL, "value_geojson": constants.EXTERNAL_CHOICES_ITEMSET_REF_VALUE_GEOJSON, "label_geojson": constants.EXTERNAL_CHOICES_ITEMSET_REF_LABEL_GEOJSON, "last_saved": utils.LAST_SAVED_INSTANCE_NAME}, "constants.EXTERNAL_CHOICES_ITEMSET_REF_* and utils.LAST_SAVED_INSTANCE_NAME"))
     parts.append("end Pyxv.Gen\n")
     # several slices may ask for the same table: keep the first definition of each name
     seen, uniq = set(), []
